@@ -310,6 +310,48 @@ static void stack_string_faults(vh_rng* r, size_t L) {
   vh_count("stack_strings_faulted");
 }
 
+/* ---------- plain element types (no Assign instance): the default assignment checks the type itself ----------
+** A value of another type offered to a plain struct -- directly, or as an element of an Array or List of them --
+** raises TypeError and changes nothing: the default assignment copies size(type) bytes only between objects of one type. */
+static var PlainA, PlainB;
+static void dump_plain_seq(var c, char* out) {
+  size_t off = (size_t)snprintf(out, DUMPCAP, "len=%zu:", len(c));
+  foreach (x in c) { if (off + 60 > DUMPCAP) { break; } unsigned char* p = x; for (int i = 0; i < 24; i++) { off += (size_t)snprintf(out + off, DUMPCAP - off, "%02x", p[i]); } off += (size_t)snprintf(out + off, DUMPCAP - off, ","); }
+}
+static void dump_plain_obj(var x, char* out) { unsigned char* p = x; size_t off = 0; for (int i = 0; i < 24; i++) { off += (size_t)snprintf(out + off, DUMPCAP - off, "%02x", p[i]); } }
+static void plain_struct_faults(vh_rng* r, int size) {
+  _Alignas(16) char ba[sizeof(struct Header) + 24], bb[sizeof(struct Header) + 40];
+  var good = header_init(ba, PlainA, AllocStack); memset(good, 0x31, 24);
+  var other = header_init(bb, PlainB, AllocStack); memset(other, 0x77, 40);
+  for (int list = 0; list < 2; list++) {
+    var c = list ? (var)new_with(List, tuple(PlainA)) : (var)new_with(Array, tuple(PlainA));
+    for (int i = 0; i < size; i++) { memset(good, 0x31 + i, 24); push(c, good); }
+    cur_kind = list ? "List<plain-struct>" : "Array<plain-struct>"; cur_size = (size_t)size;
+    var wrong[4]; wrong[0] = $I(5); wrong[1] = $S("text"); wrong[2] = other; wrong[3] = $F(2.5);
+    static const char* WN[4] = { "an-Int", "a-String", "a-larger-plain-struct", "a-Float" };
+    for (int w = 0; w < 4; w++) {
+      FAULT(c, dump_plain_seq, FC_TYPE, "push", WN[w], push(c, wrong[w]));
+      if (size > 0) {
+        FAULT(c, dump_plain_seq, FC_TYPE, "set", WN[w], set(c, $I((int64_t)vh_below(r, (uint64_t)size)), wrong[w]));
+        FAULT(c, dump_plain_seq, FC_TYPE, "push_at", WN[w], push_at(c, wrong[w], $I(0)));
+      }
+    }
+    /* still usable */
+    memset(good, 0x5c, 24);
+    var exc = NULL; VH_CATCH(push(c, good), exc);
+    vh_evals(2);
+    if (exc || len(c) != (size_t)size + 1 || memcmp(get(c, $I(-1)), good, 24) != 0) { vh_violation("C12:plain-struct:not-usable-after-failed-operations", "%s of %d plain structs does not take a valid push after the refused ones", list ? "List" : "Array", size); }
+    del(c);
+  }
+  /* direct assignment */
+  memset(good, 0x42, 24);
+  cur_kind = "plain-struct"; cur_size = 24;
+  FAULT(good, dump_plain_obj, FC_TYPE, "assign", "an-Int", assign(good, $I(5)));
+  FAULT(good, dump_plain_obj, FC_TYPE, "assign", "a-larger-plain-struct", assign(good, other));
+  FAULT(good, dump_plain_obj, FC_TYPE, "assign", "a-String", assign(good, $S("text")));
+  vh_count("plain_struct_containers_faulted");
+}
+
 /* ---------- maps ---------- */
 
 static void map_faults(vh_rng* r, int is_tree, int strkeys, int size) {
@@ -514,6 +556,7 @@ static void fixed(void) {
   scalar_faults();
   for (int st = 0; st < 2; st++) { for (int size = 0; size <= 8; size++) { fixed_tuple_faults(&r, size, st); } }
   for (size_t L = 0; L <= 26; L++) { stack_string_faults(&r, L); }
+  for (int n = 0; n <= 6; n++) { plain_struct_faults(&r, n); }
   vh_info("faults run %ld distinct %ld", faults_run, distinct_faults);
   vh_count_n("distinct_faults_in_table", (uint64_t)distinct_faults);
   vh_count_n("faults_run", (uint64_t)faults_run);
@@ -527,7 +570,7 @@ static void case_random(vh_rng* r, long index) {
     case 0: { int kind = (int)vh_below(r, 3); int et = kind == SK_TUPLE ? 0 : (int)vh_below(r, 2); seq_faults(r, kind, et, size); vh_op("%s size %d", SKNAME[kind], size);
               int ts = (int)vh_below(r, 9), st = (int)vh_below(r, 2); vh_op("%s Tuple of %d items", st ? "static" : "stack", ts); fixed_tuple_faults(r, ts, st); break; }
     case 1: { int tree = (int)vh_below(r, 2), sk = (int)vh_below(r, 2); if (size > 60) { size = 60; } map_faults(r, tree, sk, size); vh_op("%s strkeys=%d size %d", tree ? "Tree" : "Table", sk, size); break; }
-    case 2: { stack_string_faults(r, (size_t)vh_below(r, 27)); char t[80]; size_t n = vh_below(r, 60); for (size_t i = 0; i < n; i++) { t[i] = (char)(32 + vh_below(r, 90)); } t[n] = 0; string_faults(t); vh_op("String \"%s\"", t); break; }
+    case 2: { stack_string_faults(r, (size_t)vh_below(r, 27)); plain_struct_faults(r, (int)vh_below(r, 9)); char t[80]; size_t n = vh_below(r, 60); for (size_t i = 0; i < n; i++) { t[i] = (char)(32 + vh_below(r, 90)); } t[n] = 0; string_faults(t); vh_op("String \"%s\"", t); break; }
     default: { int64_t a = vh_range(r, -20, 20), b = vh_range(r, -20, 20), st = vh_range(r, -4, 4); range_faults(a, b, st); vh_op("range(%" PRId64 ",%" PRId64 ",%" PRId64 ")", a, b, st); break; }
   }
   vh_count_n("faults_run", (uint64_t)(faults_run - f0));
@@ -537,5 +580,7 @@ static void case_random(vh_rng* r, long index) {
 int main(int argc, char** argv) {
   probes_init();
   pe_prop = "C12";
+  PlainA = new_root(Type, $S("PlainA"), $I(24));
+  PlainB = new_root(Type, $S("PlainB"), $I(40));
   return vh_run(argc, argv, "faults", fixed, case_random);
 }
